@@ -119,6 +119,15 @@ CLAIMED = {
         "note": _NOTE + " How the visitor selects the constraint for a syntax tree, TypeIs/TypeGuard and match patterns are outside the claim.",
         "technique": "CrossHair symbolic execution + z3; Python's own evaluation of the condition on the symbolic object is the oracle",
     },
+    "C08": {
+        "design_ref": "DESIGN.md section 5 C08",
+        "text": ("The real OverloadedSignature.check_call runs on overload sets of 2-3 (4 in thorough) signatures whose annotations are "
+                 "stub atoms under a symbolic preorder (every class hierarchy on 3 leaves); verdict and return type are compared "
+                 "with a reference resolver written from the statement: first match without Any/union, union distribution for one "
+                 "union argument (positional or keyword), Any never selecting one overload when several match."),
+        "note": _NOTE + " A minimal visitor supplies catch_errors/show_error; building OverloadedSignature from @overload definitions is outside the claim.",
+        "technique": "CrossHair symbolic execution + z3; symbolic preorder as environment; 40-line reference resolver",
+    },
 }
 
 _PENDING = "harness not landed yet in this commit (build in progress; see DESIGN.md section 9)"
